@@ -264,6 +264,21 @@ class Sim:
                 except StopIteration as done:
                     return done.value
             n.route_answer = route_answer
+        # another thread enters stop() -- and gets as far as raising the stopping flag -- while the I/O thread is inside its
+        # reconnect pass, between the pass's own look at the flag and the dial: `midconnect=1`; the later `stop` event is
+        # that thread continuing
+        self.stop_flag_early = False
+        if kv.get("midconnect") == "1":
+            orig_ctp = n._connect_to_peer
+            sim_ = self
+
+            def _connect_to_peer(peer, _orig=orig_ctp):
+                if n._started and not n._stopping and getattr(sim_, "midconnect_armed", False):
+                    n._stopping = True
+                    sim_.stop_flag_early = True
+                    sim_.obs.append("EVN stopflag")
+                return _orig(peer)
+            n._connect_to_peer = _connect_to_peer
         self.peers = []
         for pc in self.peer_cfg:
             name, realm, persistent, always, wait, hasaddr, default = pc[:7]
@@ -719,12 +734,18 @@ class Sim:
                 th.stop = orig_stop
                 return orig_stop(*a, **k)
             th.stop = stop_io
+            if self.stop_flag_early:
+                n._stopping = False          # (the thread that raised the flag earlier is the one calling stop(): it goes on from there)
+                self.stop_flag_early = False
             try:
                 n.stop(wait_timeout=int(t[2]), force=force)
                 self.obs.append("STOPPED")
             except Exception as e:  # noqa
                 self.obs.append(f"RAISE stop {type(e).__name__}")
             self.report_writes()
+        elif op == "armstop":
+            # from here on the next dial of the reconnect pass coincides with another thread's stop() (config `midconnect=1`)
+            self.midconnect_armed = True
         elif op == "stopin":
             # stopin <timeout> <dt>: a forced stop() called by another thread while the I/O loop sleeps in select(); the
             # select timeout (dt seconds) has passed when it returns, and the loop finishes the pass it is in
